@@ -218,7 +218,7 @@ TT = "pkg/infrastructure/ast/ast_java."
 # (no row for ParseTargetType: the order field > parameter > local it implements is not what the property asks for — Java scoping is the
 #  reverse, and the tables are not scoped per method; a row copied from the code would raise an alarm on a correct repair. DESIGN.md §6.)
 row(props=["C17"], func="pkg/application/todo.(TodoApp).AnalysisPath$1", params=["path"], kind="returns",
-    expr='exists(call("deref", free_filters), ext, hasSuffix(path, ext))', what="a file is scanned ⇔ its path ends with one of the selected extensions")
+    expr='exists(call("deref", free_filters), ext, ext != "" && hasSuffix(path, ext))', what="a file is scanned ⇔ its path ends with one of the selected extensions (an empty entry of the list, as in --ext=\".java,\", selects nothing: every path ends with the empty string)")
 
 
 # ------------------------------------------------------------------ second batch: C13 C20 C18 C16 C15 C05
@@ -339,9 +339,9 @@ row(props=["C16"], func="pkg/domain/cloc.BuildLanguageMap", params=["languageMap
     when="!exists(%s, l, key == l.Name)" % DL, fields={"key": "key"}, what="a header language the directory does not contain gets an empty cell")
 PYN = 'ite(OPEN_PAREN(From_stmt_as_names(ctx)) != nil, GetText(Import_as_names(From_stmt_as_names(ctx))), GetText(From_stmt_as_names(ctx)))'
 row(props=["C20"], func="pkg/infrastructure/ast/ast_python.(PythonIdentListener).EnterFrom_stmt", params=["s", "ctx"], kind="callarg", callee="strings.Split", arg=0,
-    expr=PYN, what="the imported names are split out of the name list without its parentheses")
+    expr='trimSuffix(%s, ",")' % PYN, what="the imported names are split out of the name list without its parentheses and without the trailing comma Python allows inside them")
 row(props=["C20"], func="pkg/infrastructure/ast/ast_python.(PythonIdentListener).EnterFrom_stmt", params=["s", "ctx"], kind="callguard", callee="strings.Split",
-    expr='contains(%s, ",")' % PYN, what="a from-import with several names records each of them")
+    expr='contains(trimSuffix(%s, ","), ",")' % PYN, what="a from-import with several names records each of them")
 STARTED = 'QualifiedName(ctx) != nil && (%s || global("%sisSpringRestController")) && %s && global("%shasEnterClass")' % (CTRL, API, MAPPING, API)
 PAIRTXT = 'GetText(ElementValue(pair))'
 row(props=["C12"], func=API + "(JavaAPIListener).EnterAnnotation", params=["s", "ctx"], kind="emits", target="globalstore:" + API + "currentRestAPI.Uri", tag={}, total=2, each={"as": "pair"},
